@@ -231,7 +231,7 @@ def check_property(pid, tier, seed):
 
     # 3. kernel re-check of the property module(s) and the driver
     modules = spec["modules"]
-    okd, outd = lake_build(["fzdriver"])
+    okd, outd = lake_build(["fzdriver", "Fosite.Audit"])
     okp, outp = lake_build(modules)
     proof_broken = None
     if not okp:
